@@ -16,6 +16,9 @@ pub enum Class {
     T2b,
     /// MAP-T3: non-causal only: a parked nested remove is dropped together with its entry by a key remove
     T3,
+    /// MAP-T4: Map<..Orswot>: a nested remove applied after a concurrent key remove is parked forever in
+    /// the nested set's pending table (affects == and residue only, never reads)
+    T4,
     /// MAP-T5: Map<..MVReg>, merged lineage: merge strips foreign dots from stored value contexts, so a
     /// superseded write can reappear next to its successor
     T5,
@@ -30,6 +33,7 @@ impl Class {
             Class::T2 => "MAP-T2",
             Class::T2b => "MAP-T2b",
             Class::T3 => "MAP-T3",
+            Class::T4 => "MAP-T4",
             Class::T5 => "MAP-T5",
             Class::T6 => "MAP-T6",
         }
@@ -112,6 +116,22 @@ pub fn t3(ds: &Store, k: u8, lin: &Lineage) -> bool {
     false
 }
 
+/// nested remove `rn` (carried by an update dot) and a key remove `rk` of an enclosing key that does
+/// not cover the carrier but covers something `rn` removes: depending on arrival order `rn` is
+/// applied or parked forever
+pub fn t4(ds: &Store, k: u8) -> bool {
+    for rn in ds.rems.iter().filter(|r| !r.path.is_empty() && r.path[0] == k) {
+        let Some(carrier) = rn.carrier else { continue };
+        for rk in ds.rems.iter().filter(|r| !r.member_level && r.path.len() < rn.path.len()) {
+            let encloses = rn.path[..rk.path.len()] == rk.path[..] && rk.targets.contains(&rn.path[rk.path.len()]);
+            if encloses && !covers(&rk.ctx, carrier) && !rn.ctx.is_empty() && rn.ctx.iter().any(|(a, n)| covers(&rk.ctx, (*a, *n))) {
+                return true;
+            }
+        }
+    }
+    false
+}
+
 pub fn t5(ds: &Store, k: u8, lin: &Lineage) -> bool {
     if !lin.merged {
         return false;
@@ -173,6 +193,7 @@ pub fn explain<S: Subject>(sim: &Sim<S>, know: Bits, lin: &Lineage, points: &[St
                     Class::T2 => t2(&ds, k),
                     Class::T2b => t2b(&ds, k),
                     Class::T3 => t3(&ds, k, lin),
+                    Class::T4 => false,
                     Class::T5 => t5(&ds, k, lin),
                     Class::T6 => t6(&ds, k, lin, &sim.metas, &|b| sim.closed(b)),
                 };
@@ -180,7 +201,7 @@ pub fn explain<S: Subject>(sim: &Sim<S>, know: Bits, lin: &Lineage, points: &[St
                     continue;
                 }
                 let tolerated = match c {
-                    Class::T1 | Class::T3 => true,
+                    Class::T1 | Class::T3 | Class::T4 => true,
                     // both sides may differ from the specification only by extra written values
                     Class::T2 | Class::T2b | Class::T5 | Class::T6 => match (got.get(p), want.get(p), pred.and_then(|m| m.get(p))) {
                         (Some(g), Some(w), Some(m)) => {
@@ -210,4 +231,33 @@ pub fn explain<S: Subject>(sim: &Sim<S>, know: Bits, lin: &Lineage, points: &[St
     } else {
         None
     }
+}
+
+/// Is a failure of `==` (with equal reads) on a state with knowledge `know` explained by an enabled class?
+/// `==` is a whole-state relation, so the triggers are evaluated for every key.
+pub fn explain_eq<S: Subject>(sim: &Sim<S>, know: Bits, lin: &Lineage, enabled: &[Class]) -> Option<&'static str> {
+    if enabled.is_empty() {
+        return None;
+    }
+    let ds = Store::build(&sim.metas, know);
+    let mut keys: Vec<u8> = ds.leaves.iter().filter_map(|l| l.path.first().copied()).collect();
+    keys.sort();
+    keys.dedup();
+    for k in keys {
+        for c in enabled {
+            let hit = match c {
+                Class::T1 => t1(&ds, k, lin),
+                Class::T2 => t2(&ds, k),
+                Class::T2b => t2b(&ds, k),
+                Class::T3 => t3(&ds, k, lin),
+                Class::T4 => t4(&ds, k),
+                Class::T5 => t5(&ds, k, lin),
+                Class::T6 => t6(&ds, k, lin, &sim.metas, &|b| sim.closed(b)),
+            };
+            if hit {
+                return Some(c.name());
+            }
+        }
+    }
+    None
 }
